@@ -96,7 +96,7 @@ Print Assumptions normalize_spec.
 Example history_nontrivial :
   let h := run (tl_step (vld_of VCInt)) [1; 2; 3; 4; 5]
              [SetSlice (None, None, Some (-2)) [7; 108; 9]; DelSlice (Some 4, None, Some (-3));
-              SetInt 7 200; Append 200; Sort false; Sort false; SetSlice (Some 1, Some 1, None) []] in
+              SetInt 7 200; Append 200; Sort 0 false; Sort 0 false; SetSlice (Some 1, Some 1, None) []] in
   map (fun p => o_events (snd p)) h =
     [[(S3 0 5 2, [1; 3; 5], [9; 8; 7])]; [(S3 1 5 3, [2; 7], [])]; []; [];
      [(I 0, [9; 8; 4], [4; 8; 9])]; [(I 0, [4; 8; 9], [4; 8; 9])]; []]
